@@ -352,7 +352,7 @@ def block_distributed_array(array, return_index=False):
         
         if return_index:
             lst = []
-            for a in range(array.shape[0]):
+            for a in range(rng[0],rng[1]):
                 lst.append((a, array[a]))
             return lst             
         else:
